@@ -75,25 +75,28 @@ pub(crate) fn schema_extension(p: &mut Parser) {
     p.bump(SyntaxKind::extend_KW);
     p.bump(SyntaxKind::schema_KW);
 
-    let mut meets_requirements = false;
+    let mut has_directives = false;
 
     if let Some(T![@]) = p.peek() {
-        meets_requirements = true;
+        has_directives = true;
         directive::directives(p, Constness::Const);
     }
 
     if let Some(T!['{']) = p.peek() {
         p.bump(S!['{']);
 
+        let mut has_root_operation_types = false;
         p.peek_while_kind(TokenKind::Name, |p| {
-            meets_requirements = true;
+            has_root_operation_types = true;
             root_operation_type_definition(p);
         });
+        if !has_root_operation_types {
+            // When the braces are present they cannot be empty, with or without directives
+            p.err("expected Root Operation Type Definition");
+        }
 
         p.expect(T!['}'], S!['}']);
-    }
-
-    if !meets_requirements {
+    } else if !has_directives {
         p.err("expected directives or Root Operation Type Definition");
     }
 }
